@@ -141,8 +141,11 @@ impl Read for MonReader {
                 self.data.clear();
                 self.pos = 0;
                 while self.data.len() < 4096 {
-                    self.data.extend_from_slice(&e.pre);
-                    self.data.extend_from_slice(self.counter.to_string().as_bytes());
+                    // an empty `pre` means: no stamped counter, `post` alone repeated for ever (e.g. an endless run of blanks)
+                    if !e.pre.is_empty() {
+                        self.data.extend_from_slice(&e.pre);
+                        self.data.extend_from_slice(self.counter.to_string().as_bytes());
+                    }
                     self.data.extend_from_slice(&e.post);
                     self.counter += 1;
                 }
@@ -275,8 +278,10 @@ fn feed_fifo(path: std::path::PathBuf, e: Endless, written: Arc<AtomicU64>, open
                 return;
             }
             let mut chunk = Vec::new();
-            chunk.extend_from_slice(&e.pre);
-            chunk.extend_from_slice(counter.to_string().as_bytes());
+            if !e.pre.is_empty() {
+                chunk.extend_from_slice(&e.pre);
+                chunk.extend_from_slice(counter.to_string().as_bytes());
+            }
             chunk.extend_from_slice(&e.post);
             counter += 1;
             match f.write_all(&chunk) {
